@@ -5,7 +5,7 @@ regenerated counts, any lru-cache size)."""
 from ..core import Violation, deep
 from ..hgen import HistoryGen, make_pool, make_values, probe_keys
 from ..hworld import HWorld
-from ..core import hx
+from ..core import hx, unhx
 
 ID = "C06"
 LEVEL = "exploration"
@@ -27,6 +27,7 @@ PROBES = [
     "set-empty-absent",
     "cache-size-0",
     "short-root-replaced",
+    "bystander-op",
 ]
 FAULTS = ["batch-abort", "batch-abort-base", "restart-regenerated-counts"]
 COMPONENTS = {
@@ -38,6 +39,53 @@ ASSUMPTIONS = ["the pruning trie owns its database and starts empty (class docst
 
 
 class World(HWorld):
+    """Besides the handle under test the world hosts a *bystander*: a second, unrelated
+    pruning trie on its own store, used now and then by another client.  Nothing the
+    first trie does may disturb it and vice versa (no state may leak between trie
+    objects of one process: class-level state, shared defaults, the process-wide
+    lru_cache)."""
+
+    def __init__(self, cfg, st, oracles=()):
+        super().__init__(cfg, st, oracles=oracles)
+        from trie import HexaryTrie
+
+        from ..simdb import SimDB
+
+        self.by_db = SimDB()
+        self.by = HexaryTrie(self.by_db, prune=True)
+        self.by_model = {}
+
+    def op_by(self, h, cmd):
+        k = unhx(cmd["k"])
+        v = unhx(cmd.get("v", ""))
+        try:
+            if v:
+                self.by.set(k, v)
+                self.by_model[k] = v
+            else:
+                self.by.delete(k)
+                self.by_model.pop(k, None)
+        except Exception as e:
+            self.viol("bystander-disturbed", f"an unrelated pruning trie in the same process failed on {'set' if v else 'delete'}({k.hex()}): {e!r}")
+        self.check_bystander("its own operation")
+        self.st.probe("bystander-op")
+        # ... and the trie under test is still exact
+        if h.bgen is None:
+            self.check_exact(h)
+        return "ok"
+
+    def check_bystander(self, after):
+        from ..models.mpt import RefMPT
+
+        r = RefMPT(self.by_model)
+        raw = self.by_db.raw()
+        rc = {k: v for k, v in self.by.ref_count.items() if v != 0}
+        if self.by.root_hash != r.root_hash or raw.keys() != r.body.keys() or rc != r.count:
+            self.viol("bystander-disturbed", f"after {after} an unrelated pruning trie on its own database is no longer exact (root/db/ref_count differ from its own contents)")
+
+    def finish(self):
+        self.check_bystander("the whole history of the other trie")
+
     def check_exact(self, h):
         super().check_exact(h)
         # every stored key stays readable (a rotating sample, no PRNG)
@@ -63,6 +111,13 @@ def generate(rng):
     cache = rng.choice([0, 1, 2, 8, 4096])
     g = HistoryGen(rng, pool, values, probes, batches=True, aborts=True, reopen=True, lookups=(0, 0))
     cmds = g.history(rng.randint(10, deep(80, 200)))
+    # the bystander's client: same keys and values, so that identical nodes arise in both tries
+    if rng.random() < 0.5:
+        for _ in range(rng.choice([1, 2, 4, 8])):
+            c = {"op": "by", "k": hx(rng.choice(pool))}
+            if rng.random() < 0.7:
+                c["v"] = hx(rng.choice(values))
+            cmds.insert(rng.randrange(len(cmds) + 1), c)
     return {"prop": ID, "cfg": {"prune": True, "cache": cache}, "cmds": cmds}
 
 
